@@ -150,7 +150,7 @@ func cmdDev(cmd string, args []string) {
 	header := e.u
 	t0 := time.Now()
 	phase1Only = *p1
-	runObligations(obls, header, time.Duration(*timeout)*time.Second, false)
+	runObligations(obls, header, time.Duration(*timeout)*time.Second, os.Getenv("STICKVC_ALL") != "")
 	np := 0
 	for _, o := range obls {
 		if o.Status == "unsat" {
